@@ -24,6 +24,7 @@ type crashSpec struct {
 	victim int
 	gates  []int // cumulative victim-gate counts at which the process dies
 	stops  []int // scheduler step numbers before which the process is stopped cleanly (between ticks)
+	torn   bool  // a crash landing on a state write tears that write instead of preceding it
 }
 
 func parseInts(s string) []int {
@@ -130,6 +131,7 @@ func runC13World(w *World, tier string, spec *crashSpec, out *c13Run) (bool, int
 		if len(spec.gates) > 0 {
 			w.CrashAtGate = spec.gates[0]
 		}
+		w.CrashTorn = spec.torn
 	}
 	w.GateHook = func(tk *Task, g GateInfo) {
 		if tk.Node == victim && g.Point != "start" && out != nil && spec == nil {
@@ -405,6 +407,34 @@ func c13Driver(t *testing.T, sc *Scenario, tier string, tape *sim.Tape, keepAll 
 		}
 	}
 	agg.Stats.ProbeN("crash-positions-tried", len(positions))
+	// torn writes: the process dies in the middle of a state write (the write's
+	// journal record is cut short); all write gates in the thorough tier, four
+	// tape-chosen ones in the quick tier
+	var writes []int
+	for i, g := range ref.victimGates {
+		if p := strings.SplitN(g, ":", 3); len(p) > 1 && isWriteGate(p[1]) {
+			writes = append(writes, i+1)
+		}
+	}
+	if tier != "thorough" && len(writes) > 4 {
+		r := tape.Sub(0xc15)
+		pick := map[int]bool{}
+		for len(pick) < 4 {
+			pick[writes[int(r.Next()%uint64(len(writes)))]] = true
+		}
+		writes = writes[:0]
+		for k := range pick {
+			writes = append(writes, k)
+		}
+		sort.Ints(writes)
+	}
+	for _, k := range writes {
+		if bad := runSub(map[string]string{"mode": "crash", "gates": strconv.Itoa(k), "torn": "1"}); bad != nil {
+			bad.Stats = agg.Stats
+			return *bad
+		}
+	}
+	agg.Stats.ProbeN("torn-write-positions-tried", len(writes))
 	// clean stop/start at message boundaries
 	r := tape.Sub(0xc14)
 	for i := 0; i < 2; i++ {
@@ -457,7 +487,7 @@ func head(s []string, n int) []string {
 func specFrom(p map[string]string) *crashSpec {
 	switch p["mode"] {
 	case "crash":
-		return &crashSpec{gates: parseInts(p["gates"])}
+		return &crashSpec{gates: parseInts(p["gates"]), torn: p["torn"] != ""}
 	case "stop":
 		return &crashSpec{stops: parseInts(p["stops"])}
 	}
